@@ -2,6 +2,7 @@ package c09
 
 import (
 	"fmt"
+	"os"
 	"sort"
 	"strings"
 
@@ -410,8 +411,9 @@ func runExprCase(c ExprCase) *vt.Outcome {
 	o.Label(describeInput(vals)...)
 	o.Label("expr:" + c.Expr.opClass())
 	known := map[string]bool{}
+	var minimal any = c
 	report := func(sig, msg string) bool {
-		if vt.IsKnown(sig) || discover("TestVamExpr", sig, msg, c) {
+		if vt.IsKnown(sig) || discover("TestVamExpr", sig, msg, minimal) {
 			known[sig] = true
 			return false
 		}
@@ -424,6 +426,7 @@ func runExprCase(c ExprCase) *vt.Outcome {
 		e, sym := r.localise(c.Expr, 0)
 		colKinds := r.columnKinds(e)
 		sig := r.signature(e, 0, sym)
+		minimal = ExprCase{Input: c.Input, Expr: e, Text: e.String()}
 		if report(sig, fmt.Sprintf("`yield %s` over %d values: vector runtime: %s (sub-expression `%s`, argument kinds in the input: %s); sequential runtime returns %d values, e.g. %s",
 			c.Text, n, sym, e.String(), colKinds, len(top.sam), oracle.Show(top.sam[0]))) {
 			return o
@@ -451,6 +454,16 @@ func runExprCase(c ExprCase) *vt.Outcome {
 		if len(p.sam) == n {
 			want = oracle.Show(p.sam[row])
 		}
+		minimal = c
+		if os.Getenv("C09_DISCOVER") != "" {
+			// the smallest reproduction: the differing row alone with the minimal sub-expression (if it still shows the class)
+			m := ExprCase{Input: gen.Seq{Zctx: c.Input.Zctx, Vals: vals[row : row+1]}, Expr: e, Text: e.String()}
+			if firstSig(m) == sig {
+				minimal = m
+			} else if m2 := (ExprCase{Input: c.Input, Expr: e, Text: e.String()}); firstSig(m2) == sig {
+				minimal = m2
+			}
+		}
 		if report(sig, fmt.Sprintf("`yield %s` on %s: sub-expression `%s` (argument kinds %s): sequential runtime %s, vector runtime %s",
 			c.Text, oracle.Show(vals[row]), e.String(), r.argKinds(e, row), want, got)) {
 			return o
@@ -463,6 +476,32 @@ func runExprCase(c ExprCase) *vt.Outcome {
 	}
 	o.Known = sortedKeys(known)
 	return o
+}
+
+// firstSig runs a case outside discovery bookkeeping and returns the signature of its first difference ("" if none).
+func firstSig(c ExprCase) string {
+	vals := c.Input.Vals
+	data, err := vngBytes(vals)
+	if err != nil {
+		return ""
+	}
+	r := &exprRun{c: c, data: data, cache: map[string]*evalPair{}}
+	top := r.eval(c.Expr)
+	n := len(vals)
+	if top.samErr != nil || top.vam.compileErr != nil || len(top.sam) != n {
+		return ""
+	}
+	if top.vam.panicMsg != "" || top.vam.runErr != nil || len(top.vam.vals) != n {
+		e, sym := r.localise(c.Expr, 0)
+		return r.signature(e, 0, sym)
+	}
+	for row := 0; row < n; row++ {
+		if oracle.Key(top.sam[row]) != oracle.Key(top.vam.vals[row]) {
+			e, sym := r.localise(c.Expr, row)
+			return r.signature(e, row, sym)
+		}
+	}
+	return ""
 }
 
 // columnKinds lists, per argument of e, the set of kinds that argument takes over the whole input.
